@@ -1,12 +1,15 @@
 (* C18 — Following links yields a terminating, closed, minimal include set.
    Only the property theorems (closed by [exact]) and their [Print Assumptions];
-   the model is Model/FollowLinks.v, the proofs are in Proofs/FollowLinksP.v.
+   the model is Model/FollowLinks.v, the proofs are in Proofs/FollowLinksP.v,
+   Proofs/FollowLinksClosedP.v and Proofs/FollowLinksWildP.v.
 
    [gmatch] (path/filepath.Match) is universally quantified in every theorem; the
    refutation witnesses and examples use [go_match], the transcription of Go's
    algorithm that the correspondence run plugs into the model. *)
 From Coq Require Import List NArith Bool.
-From FS Require Import Sx Model.Path Model.Stat Model.Tree Model.FollowLinks Proofs.FollowLinksP.
+From FS Require Import Sx Model.Path Model.Stat Model.Tree Model.FollowLinks Model.Pattern Model.FilterWalk
+     Model.FollowTransfer Proofs.PatternP Proofs.FollowLinksP Proofs.FollowLinksClosedP Proofs.FollowLinksWildP
+     Proofs.FollowTransferP.
 Import ListNotations.
 Open Scope N_scope.
 
@@ -36,18 +39,70 @@ Theorem result_covers_resolved :
     (forall e, In e l -> In e (resolved st)).
 Proof. exact FollowLinksP.result_covers_resolved_proof. Qed.
 
-(* ---- closure, part 2: NOT PROVED (see props/C18.json unproved_statements); it is the
-        specification the correspondence run evaluates on every implementation result:
+(* ---- closure, part 2 (full): every symlink the independent resolver chroot_resolve
+        traverses for every wildcard expansion of every request, and the entry it
+        reaches, is in or below an element of the result (read as a pattern list for the
+        include matcher); the result is nil when the root is reached.
+        All trees: relative / absolute links, ".." beyond the root, chains, cycles, links
+        in intermediate components, dangling links; wildcards in the last component of a
+        request.  [fuel] is arbitrary: the statement is about any run that did not run out
+        of fuel (follow_terminates: fuel_bound view reqs is such a run).
+        Each of the four hypotheses no_revisit / lexical_safe / wild_last_only /
+        links_literal is necessary: dropping it makes the statement false (the four
+        _refuted theorems below = the four known findings). ---- *)
+Theorem result_closed :
+  forall gmatch view reqs (fuel : nat) (isnil : bool) (res : list bytes),
+    FollowLinks.wf_view view = true ->
+    follow_links_opt gmatch view fuel reqs = Ok (if isnil then None else Some res) ->
+    no_revisit gmatch view fuel reqs = true ->
+    lexical_safe view reqs = true ->
+    wild_last_only reqs = true ->
+    links_literal view = true ->
+    closed_b gmatch view isnil res reqs = true.
+Proof. exact FollowLinksWildP.result_closed_proof. Qed.
 
-   result_closed :
-     forall gmatch view reqs isnil res,
-       wf_view view = true ->
-       follow_links_opt gmatch view (fuel_bound view reqs) reqs = Ok (if isnil then None else Some res) ->
-       no_revisit gmatch view (fuel_bound view reqs) reqs = true ->
-       lexical_safe view reqs = true -> wild_last_only reqs = true -> links_literal view = true ->
-       closed_b gmatch view isnil res reqs = true.
+(* ---- the same with a weaker hypothesis on link targets: a component of a link target
+        may contain pattern characters as long as, among the names that occur in the
+        tree, it matches exactly its own text (then readSymlink's pattern reading and the
+        literal reading coincide).  links_literal implies links_selfmatch. ---- *)
+Theorem result_closed_selfmatch :
+  forall gmatch view reqs (fuel : nat) (isnil : bool) (res : list bytes),
+    FollowLinks.wf_view view = true ->
+    follow_links_opt gmatch view fuel reqs = Ok (if isnil then None else Some res) ->
+    no_revisit gmatch view fuel reqs = true ->
+    lexical_safe view reqs = true ->
+    wild_last_only reqs = true ->
+    links_selfmatch gmatch view = true ->
+    closed_b gmatch view isnil res reqs = true.
+Proof. exact FollowLinksWildP.result_closed_selfmatch_proof. Qed.
 
-   Each of the four hypotheses is necessary: dropping it makes the statement false. ---- *)
+(* ---- the consequence clause, as a composition with C10's model of filterFS.Walk:
+        NewFilterFS(view, {FollowPaths: reqs}) computes FollowLinks, appends the result to the
+        include patterns (follow_cfg: dedupePaths + patternmatcher.New) and walks with them
+        (filter_walk, no map function).  That walk reports every symlink the independent
+        resolver traverses for every request and the entry it reaches - so each request
+        resolves in the copy as in the source.
+        PARTIAL: proved for plain inputs (plain_inputs: no component of a request or link
+        target contains a pattern character * [ ] ? ^ \, starts with '!' or starts / ends
+        with white space), for which patternmatcher.New reads every result element as the
+        literal path it is; [pmatch] (Pattern.match of moby/patternmatcher) is universally
+        quantified under C10's hypothesis prefix_semantics (a literal pattern matches
+        exactly itself).  Outside plain inputs the statement is false of the real code:
+        known finding follow-path-result-reinterpreted-as-pattern (a followed path "!x",
+        " x", "a\b" is re-parsed as a pattern and not walked). ---- *)
+Theorem transfer_resolves_same_partial :
+  forall pmatch gmatch view reqs,
+    prefix_semantics pmatch ->
+    FollowLinks.wf_view view = true ->
+    plain_inputs view reqs = true ->
+    forall (fuel : nat) (follow : option (list bytes)),
+      follow_links_opt gmatch view fuel reqs = Ok follow ->
+      no_revisit gmatch view fuel reqs = true ->
+      lexical_safe view reqs = true ->
+      exists c, follow_cfg follow = Some c /\
+        forall r o x, In r reqs -> In o (chroot_resolve_all gmatch view r) -> needed o x ->
+          In (joinc x) (map st_path (filter_walk pmatch id_map c view)).
+Proof. exact FollowTransferP.transfer_resolves_same_partial_proof. Qed.
 
 Definition dirmode : N := 2147484141.   (* ModeDir | 0755 *)
 Definition lnkmode : N := 134218239.    (* ModeSymlink | 0777 *)
@@ -59,10 +114,11 @@ Definition F (name : bytes) : node := Node name (mkst 420 []) name [].
 Definition L (name target : bytes) : node := Node name (mkst lnkmode target) [] [].
 
 Definition refutes (view : list node) (reqs : list bytes) (res : list bytes) (nr ls wl ll : bool) : Prop :=
-  wf_view view = true /\
+  FollowLinks.wf_view view = true /\
   follow_links_opt go_match view (fuel_bound view reqs) reqs = Ok (Some res) /\
   no_revisit go_match view (fuel_bound view reqs) reqs = nr /\
   lexical_safe view reqs = ls /\ wild_last_only reqs = wl /\ links_literal view = ll /\
+  links_selfmatch go_match view = ll /\
   closed_b go_match view false res reqs = false.
 
 (* K4: self -> ., a; request self/self/a returns [self]; a is never included *)
@@ -139,9 +195,60 @@ Example root_and_wildcards :
   dedupe_paths (sort_bytes [[97;47;122]; [97;33]; [46]; [97]]) = None.
 Proof. vm_compute. repeat split; reflexivity. Qed.
 
+(* the hypotheses of result_closed / result_closed_selfmatch are jointly satisfiable on
+   non-trivial cases: a chain of links through a directory; three cycles; an absolute link
+   and ".." beyond the root; a link to the root (nil result); wildcard requests that expand
+   over links; a link target f* where an entry is literally named f* *)
+Definition closed_hyps (view : list node) (reqs : list bytes) (fuel : nat) (isnil : bool) (res : list bytes)
+           (ll : bool) : Prop :=
+  FollowLinks.wf_view view = true /\
+  follow_links_opt go_match view fuel reqs = Ok (if isnil then None else Some res) /\
+  no_revisit go_match view fuel reqs = true /\ lexical_safe view reqs = true /\
+  wild_last_only reqs = true /\ links_literal view = ll /\ links_selfmatch go_match view = true.
+Definition v_self : list node := [L [102;42] [120]; L [108] [102;42]; F [120]].
+Example closed_hyps_instances :
+  closed_hyps v_chain [[108;50]; [98;97;114]] (fuel_bound v_chain [[108;50]; [98;97;114]]) false
+    [[98;97;114]; [100;105;114;47;102;111;111]; [100;105;114;47;108;49]; [108;50]] true /\
+  closed_hyps v_loop [[108;49]; [108;51]] (fuel_bound v_loop [[108;49]; [108;51]]) false [[108;49]; [108;50]; [108;51]] true /\
+  closed_hyps v_abs [[100;105;114;47;108;49]] (fuel_bound v_abs [[100;105;114;47;108;49]]) false
+    [[98;97;122]; [100;105;114;47;108;49]; [102;111;111;47;98;97;114]] true /\
+  closed_hyps [L [108] [47]; F [120]] [[108]] 5 true [] true /\
+  closed_hyps v_chain [[100;105;114;47;42]] (fuel_bound v_chain [[100;105;114;47;42]]) false
+    [[100;105;114;47;42]; [100;105;114;47;102;111;111]] true /\
+  closed_hyps v_chain [[42]] (fuel_bound v_chain [[42]]) false
+    [[42]; [100;105;114;47;102;111;111]; [100;105;114;47;108;49]] true /\
+  closed_hyps v_self [[108]] (fuel_bound v_self [[108]]) false [[102;42]; [108]; [120]] false.
+Proof. vm_compute. repeat split; reflexivity. Qed.
+
+(* the transfer composition on the examples: the inputs are plain, and the walk with the
+   FollowLinks result as include patterns (literal matcher) reports the chain / the absolute
+   target and the directories above them / the three cycles *)
+Definition walked (view : list node) (reqs : list bytes) : option (list bytes) :=
+  match follow_links_opt go_match view (fuel_bound view reqs) reqs with
+  | Ok f => match follow_cfg f with
+            | Some c => Some (map st_path (filter_walk (lit_pmatch go_match) id_map c view))
+            | None => None
+            end
+  | OutOfFuel => None
+  end.
+Example transfer_instances :
+  plain_inputs v_chain [[108;50]; [98;97;114]] = true /\
+  walked v_chain [[108;50]; [98;97;114]] =
+    Some [[98;97;114]; [100;105;114]; [100;105;114;47;102;111;111]; [100;105;114;47;108;49]; [108;50]] /\
+  plain_inputs v_abs [[100;105;114;47;108;49]] = true /\
+  walked v_abs [[100;105;114;47;108;49]] =
+    Some [[98;97;122]; [100;105;114]; [100;105;114;47;108;49]; [102;111;111]; [102;111;111;47;98;97;114]] /\
+  plain_inputs v_loop [[108;49]; [108;51]] = true /\
+  walked v_loop [[108;49]; [108;51]] = Some [[108;49]; [108;50]; [108;51]] /\
+  plain_inputs [F [33;120]] [[33;120]] = false.
+Proof. vm_compute. repeat split; reflexivity. Qed.
+
 Print Assumptions follow_terminates.
 Print Assumptions result_sorted_minimal.
 Print Assumptions result_covers_resolved.
+Print Assumptions result_closed.
+Print Assumptions result_closed_selfmatch.
+Print Assumptions transfer_resolves_same_partial.
 Print Assumptions result_closed_refuted.
 Print Assumptions result_closed_lexical_refuted.
 Print Assumptions result_closed_wildcard_refuted.
